@@ -17,6 +17,11 @@ def selections(rng, names):
     out = [["all"], list(names), names[::-1], [names[-1]], [names[0], "nope"], ["nope", names[n // 2]]]
     if n >= 3:
         out += [[names[2], names[0]], names[1:], ["zzz"] + names[::2] + ["yyy"]]
+    if n >= 4:
+        # lowest position first, highest last, the ones between them out of file order (a block of neighbouring fields that
+        # is no ascending range)
+        out.append(names[:1] + names[1:-1][::-1] + names[-1:])
+        out.append(names[1:2] + names[2:-1][::-1] + names[-1:] if n >= 5 else names[:1] + names[2:-1] + names[1:2] + names[-1:])
     out.append(["nope", "neither"])
     # names absent from the plotfile that equal a field up to letter case, alone and next to a field
     for nm in names[:2]:
